@@ -1,4 +1,4 @@
-"""C19 - HTTP gate and framing independence. Specs: HttpGate.tla, HttpStack.tla. Binding: B through the tower service with explicit frames."""
+"""C19 - HTTP gate and framing independence. Spec: HttpGate.tla (the layers in front of the gate: HttpStack.tla, ./check X02). Binding: B through the tower service with explicit frames."""
 import vlib
 from checks import g
 
@@ -17,34 +17,18 @@ def run(tier):
     if asis["violated"] != "Inv_SniffIsFunctionOfBody":
         raise vlib.ToolError("as-is config did not violate Inv_SniffIsFunctionOfBody (spec drift)")
     rep.add_tlc(asis, "as-is (first frame decides even when blank): counterexample found, as expected (F14)")
-    r3 = vlib.tlc("HttpStack", "MC_HttpStack.cfg", workers=4, timeout=300)
-    rep.add_tlc(r3, "the shipped HTTP layers in front of the service (ProxyGetRequest, HostFilter; absent / present, either order) and the "
-                    "server's dispatch by upgrade headers and mode (both / http_only / ws_only): "
-                    "one action per layer inwards and outwards; Inv_OnlyJsonPostReachesRpc, Inv_ProxyCallsMapped, "
-                    "Inv_RefusedRunsNothing, Inv_ModeRespected, Inv_FilterAlwaysDecides, Inv_ProxiedAnswerIsBare, Inv_UnproxiedAnswerUntouched")
-    if vlib.zero_coverage(r3, ["ProxyIn", "FilterIn", "Gate", "Rpc", "PassOut", "Deliver"]):
-        raise vlib.ToolError("vacuity: a layer action of HttpStack was never taken")
-    if len(r3["replay"]) < 29000:
-        raise vlib.ToolError("too few stack cases: %d" % len(r3["replay"]))
-    cases = r1["replay"] + r2["replay"] + r3["replay"]
+    cases = r1["replay"] + r2["replay"]
     if len(cases) < 3000:
         raise vlib.ToolError("too few cases: %d" % len(cases))
     g.replay_flow(rep, "c19", cases, k=1 if tier == "quick" else 5, timeout=1800,
-                  nontrivial=lambda c: ("allowed" in c and c["allowed"] != ["rpc"]) or ("frames" in c and len(c["frames"]) > 1)
-                  or ("cfg" in c and (c["proxied"] or c["ans"]["k"] == "text")))
+                  nontrivial=lambda c: ("allowed" in c and c["allowed"] != ["rpc"]) or ("frames" in c and len(c["frames"]) > 1))
     rep.cov["exhaustive"] = True
     rep.cov["rule"] = ("gate: every (method, content-type form) pair incl. 6 accepted spellings x 3 letter casings, near-misses, "
                        "parameters, duplicates, missing; chunks: for 6 bodies every subset of <= 3 of 5 cut points, optionally one "
                        "empty or whitespace-only frame inserted at every position, with and without Content-Length; each chunked "
                        "exchange is compared byte-for-byte (status, body, handler log) with the one-chunk exchange of the "
-                       "concatenation and, where the concatenation's class is known, with the spec's answer; stack: every request of "
-                       "4 methods x 15 path classes (10 registered paths by the kind of answer of the mapped method, query / "
-                       "trailing-slash / letter-case spellings, unregistered, root) x 3 hosts x 3 content types x 3 bodies, and the same as a "
-                       "WebSocket handshake (complete / without a key), against each "
-                       "of the 5 layer configurations x 3 server modes (both, http_only, ws_only), through the real ProxyGetRequestLayer / HostFilterLayer / TowerService: "
-                       "status, kind and content of the answer (bare result value, bare error object with code and data, "
-                       "JSON-RPC envelope, refusal) and the exact handler log; non-trivial = refused "
-                       "by the gate or a layer, more than one frame, or rewritten by the proxy")
+                       "concatenation and, where the concatenation's class is known, with the spec's answer; non-trivial = refused "
+                       "by the gate or more than one frame")
     rep.assumptions += ["JSON content types with other parameters may be answered 415 or reach RPC (the property's wording leaves it open)"]
     return rep.finish()
 
